@@ -28,7 +28,8 @@ Prepare ==
 
 Finalize ==
     /\ phase = "prepared"
-    /\ \E survivors \in SUBSET repro, nnew \in 0..MaxSpecies :
+    \* every LISTED species may receive offspring at speciation, also one whose own quota is 0 after delta coding
+    /\ \E survivors \in SUBSET Ids(sp), nnew \in 0..MaxSpecies :
          /\ Cardinality(survivors) + nnew >= 1 /\ Cardinality(survivors) + nnew <= MaxSpecies
          /\ sp' = Finalized(sp, survivors, nnew, last)
          /\ last' = last + nnew
